@@ -58,7 +58,8 @@ def orient(x: np.ndarray, stratum: str, bond=(0, 1), rng=None, delta=2e-4) -> np
 def probe_rigid_motion(inp: Dict[str, Any]) -> Dict[str, Any]:
     name, method = inp["name"], inp["method"]
     sp = esh.settings(method=method, eps=inp.get("eps", 1e-10), converger=inp.get("converger", [1]), analytical=inp.get("analytical"),
-                      excited=inp.get("excited"), active_state=inp.get("active_state", 0))
+                      excited=inp.get("excited"), active_state=inp.get("active_state", 0), uhf=inp.get("uhf", False),
+                      **({"pair_outer_cutoff": inp["cutoff"]} if inp.get("cutoff") else {}))
     z, x0 = esh.geom(name)
     rng = np.random.default_rng(inp.get("seed", 0))
     base = x0 @ esh.random_rotation(np.random.default_rng(12345)).T  # fixed generic reference orientation
@@ -145,6 +146,12 @@ def gen_cases(ctx: Ctx):
     # d-orbital PM6 (probe only): generic + the axes the design names
     for st in (["generic:", "axis:+x", "axis:+z", "axis:+y"] if ctx.thorough else ["generic:", "axis:+z"]):
         cases.append({"name": "h2s", "method": "PM6", "stratum": st, "seed": 5, "tol_f": 5e-6})
+    # finite pair cutoff: which pairs are dropped must not depend on the orientation (cutoff chosen between bonded and non-bonded distances)
+    for nm, cut in ([("ch3cl", 2.0), ("c2h4", 2.3), ("so2", 1.8)] if ctx.thorough else [("ch3cl", 2.0), ("c2h4", 2.3)]):
+        cases.append({"name": nm, "method": str(rng.choice(methods)), "stratum": "generic:", "seed": int(rng.integers(0, 10**6)), "cutoff": cut})
+    # spin-polarised unrestricted references (radicals, triplet): the spin-density exchange terms must be rotation covariant too
+    for nm, meth in ([("oh", "AM1"), ("no", "PM3"), ("o2", "MNDO"), ("oh", "MNDO")] if ctx.thorough else [("oh", "AM1"), ("no", "PM3")]):
+        cases.append({"name": nm, "method": meth, "stratum": "generic:", "seed": int(rng.integers(0, 10**6)), "uhf": True, "eps": 1e-9, "tol_e": 2e-7, "tol_f": 1e-5})
     # excited state
     cases.append({"name": "ch2o", "method": "AM1", "stratum": "generic:", "seed": 3, "excited": {"n_states": 2, "method": "cis"}, "active_state": 1, "tol_f": 1e-5})
     return cases
